@@ -231,13 +231,18 @@ def run(ctx):
     f = families.imaging(rng, distortion=True, box=True)
     w = f.w
 
+    calls = [0]
+
     def gen_world_it(n):
         pts = [families.random_point(rng, f) for _ in range(n)]
-        for p in pts:       # some points just inside an edge of the box (closer than the error of the solver's starting value)
-            if rng.random() < 0.35:
-                k = rng.randrange(2)
+        calls[0] += 1
+        for j, p in enumerate(pts):       # some points just inside an edge of the box (closer than the error of the solver's starting value);
+            forced = (j == 0 and calls[0] % 2 == 0)                       # every second call has its first point there for certain
+            if forced or rng.random() < 0.35:
+                k = (calls[0] // 2) % 2 if forced else rng.randrange(2)
                 lo, hi = f.box[k]
-                p[k] = (hi - rng.uniform(0.02, 0.6)) if rng.random() < 0.5 else (lo + rng.uniform(0.02, 0.6))
+                eps = [0.02, 0.05, 0.1, 0.2, 0.4][(calls[0] // 4) % 5] if forced else rng.uniform(0.02, 0.6)
+                p[k] = (hi - eps) if ((calls[0] // 8) % 2 == 0 if forced else rng.random() < 0.5) else (lo + eps)
         ra, dec = w(np.array([p[0] for p in pts]), np.array([p[1] for p in pts]))
         ra, dec = np.atleast_1d(ra).astype(float), np.atleast_1d(dec).astype(float)
         if n >= 3:
@@ -245,6 +250,12 @@ def run(ctx):
         return [ra, dec]
     check_target(ctx, "numerical_inverse/imaging_dist", (lambda *a: w.numerical_inverse(*a)), 2, gen_world_it, 3e-5, problems,
                  shapes=[(), (1,), (5,), (2, 3)])
+    # every iteration mode (the default is plain + divergence detection), with a tight solver tolerance so that an element that stopped
+    # early because of ANOTHER element of the batch (e.g. a NaN one) shows against its stand-alone solution
+    for ad_, dd_ in ((True, True), (True, False), (False, True), (False, False)):
+        check_target(ctx, f"numerical_inverse(adaptive={ad_},detect_divergence={dd_},tolerance=1e-9)/imaging_dist",
+                     (lambda *a, ad_=ad_, dd_=dd_: w.numerical_inverse(*a, adaptive=ad_, detect_divergence=dd_, quiet=True, tolerance=1e-9)), 2,
+                     gen_world_it, 1e-6, problems, shapes=[(), (5,), (2, 3)])
     check_target(ctx, "invert(iterative)/imaging_dist", (lambda *a: w.invert(*a)), 2, gen_world_it, 3e-5, problems, shapes=[(), (6,), (2, 2)])
     check_target(ctx, "in_image(iterative)/imaging_dist", (lambda *a: w.in_image(*a)), 2, gen_world_it, 0, problems, shapes=[(), (6,)])
     # a rotated (not sky-aligned) WCS: the adaptive iteration couples the points of a batch — known finding
